@@ -14,6 +14,15 @@ ID = "C08"
 def make_plan(seed: int, tier: str, opts: dict) -> dict:
     r = random.Random(seed)
     spec = common.gen_supported_spec(r, max_nodes=opts.get("max_nodes", 4), overrun_bias=0.7)
+    if r.random() < opts.get("leaf_p", 0.5):
+        from simrex import spec as _sp
+
+        for _ in range(20):
+            s2 = __import__("copy").deepcopy(spec)
+            _sp.add_leaves(s2, r)
+            if _sp.in_S(s2) is None:
+                spec = s2
+                break
     for c in spec["conns"]:
         if r.random() < 0.4:
             c["window"] = r.randint(2, 4)
